@@ -25,11 +25,27 @@ RULE = ('exhaustive small scope: get_spans through Field.get_spans / Session.get
         'random run layouts around K, and min / max / first / last / index_of_min / index_of_max (kernel, Session, Field) '
         'with the extreme rows (and ties) at / next to K and 2K and spans that straddle, start or end at them; for small '
         'new literals K <= 2048 also explicit K+1 / 2K+2-row tables through _get_spans_for_multi_fields / check_if_sorted. '
+        'KEYS GIVEN BY THEIR STORED REPRESENTATION (value equality is not representation equality; the real code gets the '
+        'bit patterns, the model float_key(bits), theorems float_key_* / spans_float_column_correct / groupby_spans_correct): '
+        'float64 / float32 / timestamp columns over {+0.0, -0.0, 0.5} of length 0..5 through every one-column entry point; '
+        'pairs of columns of length 0..4 over the two zeros x two values in 8 dtype pairs (and 0..3 over three values) through '
+        'fields=(Field,Field) / (ndarray,ndarray); np.asarray-stacked tables of 1..3 columns of one or several numeric dtypes '
+        '(bool/int8/int32/int64/float32/float64, widened) and of S columns of several widths (re-padded; b"a" vs b"a\\0") '
+        'of length 0..5 / 0..4 / 0..3 through _get_spans_for_multi_fields and check_if_sorted_for_multi_fields; '
+        'DataFrame.groupby(by=...).count() on 14 key dtype sets (same dtype: stacked; different dtypes: ranked by np.unique) '
+        'of length 0..4 / 0..2; min / max / first / last / index_of_* and the *_filter kernels with ties between the two zeros; '
+        'random runs over infinities, +-max, +-smallest subnormal and sign-mixed runs of zeros through all of these. '
         'Non-trivial = the case reaches a planted feature (see features).')
 EXHAUSTIVE = {'quick': True, 'thorough': True}
 TRUSTED = ['numpy element-wise `!=`, `<`, `>` on int/float/bool/S arrays and numba\'s charseq comparisons are the exact '
            '(byte-wise unsigned, NUL-padded) comparisons of the model (exercised by this correspondence, not proved)',
-           'float columns are NaN-free multiples of 1/4 (order-embedded into Z by the harness)',
+           'float columns are NaN-free; kinds float64/float32/ts: multiples of 1/4 (order-embedded into Z by the harness); '
+           'kinds f64b/f32b/tsb: any non-NaN bit pattern, order-embedded by the Gallina function float_key (sign-magnitude '
+           'decoding, proved to identify exactly the two zeros and to order patterns as sign-magnitude numbers; that this is '
+           'the order / equality of IEEE-754 binary floats is the standard\'s encoding, not proved here)',
+           'np.asarray of key columns of different numeric dtypes / S widths keeps every value (only value-preserving '
+           'combinations are stacked by the harness); np.unique(return_inverse) is modelled by unique_inverse (theorem '
+           'unique_inverse_exact), numpy\'s own implementation is exercised, not verified',
            'apply_index_to_indexed_field (C09) maps the row indices returned by the indexed kernels to strings',
            'large cases: the harness expands a run-length encoding with numpy.repeat / numpy.tile (offsets by cumsum); '
            'Model/SpansRle.v `expand` is the meaning of that expansion (numpy.repeat itself is not verified)']
@@ -44,7 +60,8 @@ LEVEL_TEXT = ('Theorems in coq/Props/C08.v prove for all inputs that the models 
               'apply_spans_* model returns the per-span first/last/min/max/count/argmin/argmax; the models are tied to '
               'the real code by running both on the same generated cases.')
 LEVEL_NOTE = ('Trusted: Coq kernel, extraction, harness. numpy/numba element comparisons are modelled (byte-wise), not '
-              'verified. Floats are order-embedded integers.')
+              'verified. Floats are order-embedded integers (float_key on the stored bit pattern: equal values, e.g. +0.0 and '
+              '-0.0, get the same integer).')
 
 _np = _ops = _fields = _sess = None
 S = DS = DF = None
@@ -665,7 +682,7 @@ def features(case, model):
         if len(rows) == 0: f.append(tag + 'rows=0')
         if len(rows) == 1: f.append(tag + 'rows=1')
         rr = _runs(_vrows(col))
-        f.extend(_repr_features([col], tag))
+        f.extend(x for x in _repr_features([col], tag) if not (tag and 'inside-a-run' in x))
         if rows and len(rr) == 1 and len(rows) > 1: f.append(tag + 'one-span-covers-all')
         if rows and len(rr) == len(rows) and len(rows) > 1: f.append(tag + 'all-single-row-spans')
         if rr and 1 < len(rr) < len(rows): f.append(tag + 'mixed-spans')
@@ -799,6 +816,10 @@ def _repr_features(cols, tag=''):
             for i in range(1, n):
                 if list(rows[i]) != list(rows[i - 1]) and vs[ci][i] == vs[ci][i - 1]:
                     f.append(tag + 'repr:adjacent-differ-only-in-trailing-NULs(same-stored-element)'); break
+        elif k == 'indexed':
+            for i in range(1, n):
+                if list(rows[i]) != list(rows[i - 1]) and _strip(rows[i]) == _strip(rows[i - 1]):
+                    f.append(tag + 'repr:indexed-rows-differ-only-in-trailing-NULs(different-rows)'); break
     return sorted(set(f))
 
 
@@ -926,6 +947,18 @@ def _warm_cases():
         rows = [[97], [98]] if k == 'fixed' else [0, 1]
         yield {'op': 'multi', 'k': k, 'w': 3, 'cols': [rows, rows]}
         yield {'op': 'sorted', 'k': k, 'w': 3, 'cols': [rows, rows]}
+    for kinds in REPR_MULTI_SETS:
+        cs = [_col(k, _two_alpha(k)) for k in kinds]
+        yield {'op': 'multir', 'cols': cs}
+        yield {'op': 'sortedr', 'cols': cs}
+    for ws in REPR_FIXED_SETS:
+        cs = [_col('fixed', _two_alpha('fixed', w), w=w) for w in ws]
+        yield {'op': 'multir', 'cols': cs}
+        yield {'op': 'sortedr', 'cols': cs}
+    for (k0, k1) in [('f64b', 'f64b'), ('f64b', 'int32'), ('int32', 'f32b'), ('f64b', 'fixed'), ('tsb', 'f32b'), ('fixed', 'f32b'),
+                     ('bool', 'int8'), ('int8', 'int64'), ('f32b', 'int32')]:
+        yield {'op': 'gs2a', 'c0': _col(k0, _two_alpha(k0)), 'c1': _col(k1, _two_alpha(k1))}
+    yield {'op': 'gb', 'cols': [_col('f64b', _fb_two(64)), _col('int32', [0, 1])]}
     for sdt in ('int32', 'int64'):
         yield {'op': 'bs', 'sdt': sdt, 's0': [0, 2], 's1': [0, 1, 2]}
         for fn in KID:
@@ -1510,6 +1543,18 @@ def _gen_repr(tier, rng, tick):
                     continue
                 yield {'op': 'apf', 'fn': ['min', 'max', 'first', 'last'][t % 4], 'sdt': 'int32' if t % 2 else 'int64', 'spans': sp,
                        'col': _col('f64b', rows), 'dest': [7] * (len(sp) - 1), 'flt': [(i + t) % 2 for i in range(len(sp) - 1)]}
+    # ---- R7. the opposite direction: indexed strings are compared byte-exactly, 'a' and 'a\\0' are DIFFERENT rows (a kernel
+    #          that moves them into an 'S' array would merge them); [] and [0] likewise
+    nul_pool = [[97], [97, 0], [], [0]]
+    for rows in _seqs(nul_pool, 5 if big else 4):
+        yield {'op': 'gs', 'col': _col('indexed', rows), 'h5': tick() % 16 == 0}
+    for n in range(0, 4):
+        for r0 in itertools.product(nul_pool[:3], repeat=n):
+            yield {'op': 'gs2f', 'c0': _col('indexed', r0), 'c1': _col('f64b', [fbits(64, 0.0), fbits(64, -0.0), fbits(64, 0.0)][:n])}
+            for sp in _compositions(n):
+                for fn in ('index_of_min', 'index_of_max'):
+                    yield {'op': 'ap', 'fn': fn, 'level': 'kernel' if tick() % 2 else 'field', 'sdt': 'int32', 'spans': sp,
+                           'col': _col('indexed', r0)}
     # ---- R6. structured random: runs over the whole pool (infinities, extremes, subnormals next to the zeros), a sign
     #          flip of a zero planted inside a run, through every entry point incl. several arrays and group-by
     def frows(k, n):
